@@ -21,7 +21,9 @@ RULE = ("A case is 1-3 fake nodes whose connection attempts take 0 or 0.5 virtua
         "never-convicting conviction policy, ConstantReconnectionPolicy(1 s), and a generated prefix of events: a pool "
         "connection fails, a node goes down / comes back, STATUS_CHANGE UP/DOWN, a node leaves / joins the ring, a request is "
         "sent (answered or left unanswered), a pool connection with a request in flight is closed by the peer with nothing "
-        "run before the next step (so the pool's reaction is still queued when shutdown starts), the clock advances by 0.1-1.6 s.  Then Cluster.shutdown() or "
+        "run before the next step (so the pool's reaction is still queued when shutdown starts), the clock advances by 0.1-1.6 s; optionally the connection class has orphaned_threshold=2 and the history ends with "
+        "requests that time out on the client (orphaned streams) followed by newer requests, so that the connection is replaced "
+        "and parked in the pool's trash; the peer's closes are resets or orderly closes (EOF).  Then Cluster.shutdown() or "
         "Session.shutdown() runs as another client thread, a few more events follow, 12 virtual seconds pass, a request "
         "and a connect() are attempted, and finally the cluster is shut down.  A schedule tape picks the runnable virtual "
         "thread at every choice point.  Non-trivial: at least one connection attempt (initial connect, pool creation, "
@@ -58,8 +60,16 @@ def s_case(gran):
         "convict": st.sampled_from([True, True, False]),
         "settle_connect": st.booleans(),
         # (often the history ends with a pool connection dying at the very moment of the shutdown)
+        # (sometimes it ends with a connection that crossed the orphaned-stream threshold -- requests timed out on the
+        # client -- and was replaced while newer requests are still in flight on it: it sits in the pool's trash)
         "events": st.one_of(st.lists(ev, max_size=8),
-                            st.tuples(st.lists(ev, max_size=5), h).map(lambda t: t[0] + [["die_now", t[1]]])),
+                            st.tuples(st.lists(ev, max_size=5), h).map(lambda t: t[0] + [["die_now", t[1]]]),
+                            st.tuples(st.lists(ev, max_size=3), h, st.sampled_from([2.1, 2.3, 3.0]),
+                                      st.sampled_from([0.0, 0.1, 0.6]), st.integers(1, 2)).map(
+                                lambda t: t[0] + [["query", t[1], True]] * 2 + [["advance", t[2]]] +
+                                [["query", t[1], True]] * t[4] + ([["advance", t[3]]] if t[3] else []))),
+        "orphan_threshold": st.sampled_from([None, 2, 2]),
+        "orderly": st.booleans(),
         "shutdown": st.sampled_from(["cluster", "cluster", "session"]),
         "after": st.lists(ev, max_size=3),
         "tape": st.lists(st.integers(0, 3), max_size=40 if gran == "locks" else 10),
@@ -112,6 +122,11 @@ def _run(case, ctx, sim):
             finally:
                 rec[1] = self.endpoint.address if getattr(self, "endpoint", None) is not None else None
                 rec[3] = self
+    if case.get("orphan_threshold"):
+        # (documented class attribute: streams whose request timed out on the client are orphaned; at the threshold the
+        # pool replaces the connection and parks the old one until its remaining requests drain)
+        LoggedConnection.orphaned_threshold = case["orphan_threshold"]
+    orderly = bool(case.get("orderly"))
     policy = S.plan_policy()
     prof = ExecutionProfile(load_balancing_policy=policy, request_timeout=2.0)
     kw = {}
@@ -163,7 +178,7 @@ def _run(case, ctx, sim):
                 s = sessions[ev[2] % len(sessions)]
                 conns = [c for c in S.pool_connections(s, a) if not c.is_closed]
                 for c in conns:
-                    net.server_close(c)
+                    net.server_close(c, eof=orderly)
                 sim.settle()
                 if conns:
                     run_query(ev[2], a, False)
@@ -172,7 +187,7 @@ def _run(case, ctx, sim):
             node.up = False
             for c in list(net.conns):
                 if c.node is node and not c.is_closed and not c.srv_closed:
-                    net.server_close(c)
+                    net.server_close(c, eof=orderly)
         elif kind == "node_up":
             net.nodes[addrs[ev[1] % n]].up = True
         elif kind == "status":
@@ -203,7 +218,7 @@ def _run(case, ctx, sim):
                 run_query(0, a, True)
                 sim.settle()
                 for c in conns:
-                    net.server_close(c)
+                    net.server_close(c, eof=orderly)
             ctx.label("ev:die_now")
             return
         sim.settle()
@@ -221,6 +236,12 @@ def _run(case, ctx, sim):
     busy = in_progress()
     ret = {}
     victim = sessions[0] if target == "session" else None
+    for s_ in sessions:
+        for pool in list(s_._pools.values()):
+            if any(not c.is_closed for c in getattr(pool, "_trash", ())):
+                ctx.label("cls:open-trashed-connection-at-shutdown")        # (class counter only)
+    if any(c.orphaned_threshold_reached for c in net.conns):
+        ctx.label("cls:orphaned-threshold-reached")
 
     def do_shutdown():
         (victim if victim is not None else cluster).shutdown()
